@@ -109,9 +109,26 @@ def scale2 (neg : Bool) (m : Nat) (e2 : Int) : F64 :=
     else if e2 ≥ 0 then F64.roundPos neg (m * 2 ^ e2.toNat) 1
     else F64.roundPos neg m (2 ^ (-e2).toNat)
 
-/-- `strconv.ParseFloat(s, 64)`.  Underscores are rejected (Go accepts them only inside
-    base-prefixed literals, where this model also rejects them; recorded in the trusted base). -/
-def parseFloat (s : List Char) : Except FloatErr F64 :=
+/-- `strconv.underscoreOK`: underscores only between digits (a base prefix counts as a digit) -/
+def underscoreOK (s : List Char) : Bool :=
+  let s1 := match s with | '-' :: r => r | '+' :: r => r | r => r
+  let (hex, saw0, body) : Bool × Char × List Char :=
+    match s1 with
+    | '0' :: x :: rest =>
+      if lowerC x = 'b' || lowerC x = 'o' || lowerC x = 'x' then (lowerC x = 'x', '0', rest) else (false, '^', s1)
+    | _ => (false, '^', s1)
+  let rec go (hex : Bool) : List Char → Char → Bool
+    | [], saw => saw != '_'
+    | c :: cs, saw =>
+      if isDigit c || (hex && 'a' ≤ lowerC c && lowerC c ≤ 'f') then go hex cs '0'
+      else if c = '_' then (if saw != '0' then false else go hex cs '_')
+      else if saw = '_' then false
+      else go hex cs '!'
+  go hex body saw0
+
+/-- `strconv.ParseFloat(s, 64)`: the text without underscores, which must be placed as
+    `underscoreOK` allows -/
+def parseFloatNoUnderscore (s : List Char) : Except FloatErr F64 :=
   let (neg, body) := match s with
     | '+' :: r => (false, r)
     | '-' :: r => (true, r)
@@ -147,6 +164,12 @@ where
           let r := scale10 neg m (e - (nf : Int))
           if r.isInf then .error .range else .ok r
         | _ => .error .syntax
+
+/-- `strconv.ParseFloat(s, 64)` -/
+def parseFloat (s : List Char) : Except FloatErr F64 :=
+  if s.contains '_' then
+    (if underscoreOK s then parseFloatNoUnderscore (s.filter (· != '_')) else .error .syntax)
+  else parseFloatNoUnderscore s
 
 def formatNat (n : Nat) : List Char := Nat.toDigits 10 n
 
